@@ -253,7 +253,9 @@ Proof.
     unfold get_fraction. change ((46 =? 46) || (46 =? 44))%N with true. rewrite Du1. cbn [andb].
     rewrite span_digits_6 by assumption.
     unfold nanos_of_digits. cbn [firstn length]. rewrite Vu. change (10 ^ Z.of_nat (9 - 6)) with 1000.
-    sb. rewrite Zp. sb. rewrite Vy, Vd, Dok. reflexivity.
+    assert (Hw : writable_offset (60 * Z.quot off 60) = true).
+    { unfold writable_offset. apply andb_true_intro; split; apply Z.ltb_lt; Z.to_euclidean_division_equations; lia. }
+    sb. rewrite Zp. sb. rewrite Vy, Vd, Dok, Hw. reflexivity.
   - rewrite Zlast. 
     change (y1 :: y2 :: y3 :: y4 :: 45%N :: m1 :: m2 :: 45%N :: d1 :: d2 :: 84%N :: h1 :: h2 :: 58%N :: i1 :: i2
               :: 58%N :: s1 :: s2 :: 46%N :: u1 :: u2 :: u3 :: u4 :: u5 :: u6 :: zr ++ [zc])
